@@ -15,7 +15,7 @@ import (
 func init() {
 	register(&Spec{ID: "C19", Title: "A version has a capability exactly inside the capability's ranges", Run: runC19,
 		Meta: core.Meta{
-			Explanation: "R19.11: in Target.Version the non-nil edge of SetCapabilities' error leads to error returns only. R19.10: in NewCapability the bounds Introduced/Removed are stored into the local range only, never into an element of VersionRanges. R19.9: in SetCapabilities and contains the non-nil edge of the test of every comparer call's error leads to returns of a non-nil error only. R19.8: DefaultVersion.VersionString returns the spec field itself. R19.4 (second clause): every error-free answer of VersionCompareSemantic is NewVersion(a).Compare(NewVersion(b)) on the parsed values themselves, not on a projection such as Core(). R19.1 (E-ABS, finite-domain abstract evaluation): VersionRange.contains uses its string inputs only through `== \"\"` tests and through the comparer, and the comparer's results only through comparisons with 0 and nil (checked by def-use; any other use makes the obligation undecided). Under that premise the function is a finite decision table over the abstract inputs (Introduced empty?, Removed empty?, outcome of cmp(Introduced, version) ∈ {<0, 0, >0, error}, outcome of cmp(version, Removed) ∈ {<0, 0, >0, error}); the engine walks the loop-free SSA under each of the 64 abstract inputs (every branch is determinate) and compares the result with the property's own table: both empty → false; a needed comparison fails → error; otherwise (no lower ∨ lower ≤ version) ∧ (no upper ∨ version < upper). The argument order of each comparer call is part of the abstraction. R19.2 (SetCapabilities): SetCapability(cap, true) only on the contains == true edge; SetCapability(cap, false) only on the other; the loop over a capability's ranges is left early ONLY after SetCapability(cap, true) (any other early exit makes the answer depend on the order of ranges); for ranges with both bounds the comparer error and the `i >= 0` (inverted or zero-width) edges return errors before contains is called; contains' error is returned; a nil comparer defaults to VersionCompareSemantic. R19.3: DefaultVersion.Has is a comma-ok lookup that answers false when absent. R19.7: DefaultVersion.SetCapability stores its bool parameter under its capability parameter in the map on every path (dropping `false` would let a stale `true` of an earlier evaluation of the same Version survive). R19.4: VersionCompareSemantic answers without error only after BOTH version strings were parsed successfully (no shortcut that lets an unparsable version through). R19.6: SetCapabilities, contains, VersionCompareSemantic and Has read and write no package-level variable (a cache of earlier evaluations would make the outcome of evaluating a range depend on history instead of on the range and the version). R19.5: NewCapability pairs its version strings by argument position — Introduced is assigned only on the even-index edge of i%2, Removed only on the odd-index edge.",
+			Explanation: "R19.12: NewDefaultVersion stores its parameter as the specification; DefaultVersion.Has returns the map lookup itself. R19.11: in Target.Version the non-nil edge of SetCapabilities' error leads to error returns only. R19.10: in NewCapability the bounds Introduced/Removed are stored into the local range only, never into an element of VersionRanges. R19.9: in SetCapabilities and contains the non-nil edge of the test of every comparer call's error leads to returns of a non-nil error only. R19.8: DefaultVersion.VersionString returns the spec field itself. R19.4 (second clause): every error-free answer of VersionCompareSemantic is NewVersion(a).Compare(NewVersion(b)) on the parsed values themselves, not on a projection such as Core(). R19.1 (E-ABS, finite-domain abstract evaluation): VersionRange.contains uses its string inputs only through `== \"\"` tests and through the comparer, and the comparer's results only through comparisons with 0 and nil (checked by def-use; any other use makes the obligation undecided). Under that premise the function is a finite decision table over the abstract inputs (Introduced empty?, Removed empty?, outcome of cmp(Introduced, version) ∈ {<0, 0, >0, error}, outcome of cmp(version, Removed) ∈ {<0, 0, >0, error}); the engine walks the loop-free SSA under each of the 64 abstract inputs (every branch is determinate) and compares the result with the property's own table: both empty → false; a needed comparison fails → error; otherwise (no lower ∨ lower ≤ version) ∧ (no upper ∨ version < upper). The argument order of each comparer call is part of the abstraction. R19.2 (SetCapabilities): SetCapability(cap, true) only on the contains == true edge; SetCapability(cap, false) only on the other; the loop over a capability's ranges is left early ONLY after SetCapability(cap, true) (any other early exit makes the answer depend on the order of ranges); for ranges with both bounds the comparer error and the `i >= 0` (inverted or zero-width) edges return errors before contains is called; contains' error is returned; a nil comparer defaults to VersionCompareSemantic. R19.3: DefaultVersion.Has is a comma-ok lookup that answers false when absent. R19.7: DefaultVersion.SetCapability stores its bool parameter under its capability parameter in the map on every path (dropping `false` would let a stale `true` of an earlier evaluation of the same Version survive). R19.4: VersionCompareSemantic answers without error only after BOTH version strings were parsed successfully (no shortcut that lets an unparsable version through). R19.6: SetCapabilities, contains, VersionCompareSemantic and Has read and write no package-level variable (a cache of earlier evaluations would make the outcome of evaluating a range depend on history instead of on the range and the version). R19.5: NewCapability pairs its version strings by argument position — Introduced is assigned only on the even-index edge of i%2, Removed only on the odd-index edge.",
 			NotDecided:  "The semantic-version library itself and NewCapability's pairing of strings are not decided.",
 			Assumptions: []string{"the comparer is a pure function of its two arguments"},
 		}})
@@ -39,6 +39,9 @@ func runC19(r *core.Run) {
 	defer rangesNeverEdited(r, "R19.10")
 	r.Rule("R19.11", "Target.Version fails when the evaluation fails", 1, false)
 	defer func() {
+	r.Rule("R19.12", "a version is evaluated and answered as given: the constructor stores the specification, Has returns the record", 2, false)
+	defer specStoredAsGiven(r, "R19.12")
+	defer hasIsTheRecord(r, "R19.12")
 		p := r.Prog
 		fn := p.Func("capability", "Target", "Version")
 		for _, c := range callsTo(fn, p.Func("capability", "Target", "SetCapabilities")) {
